@@ -777,6 +777,11 @@ let run_scr id rest =
        Printf.sprintf "%s ok %s %s %s | %s | %s" id (dec_of_n r.Rice.prc_order) (fmt_nl r.Rice.prc_ps) (dec_of_n r.Rice.prc_bits)
          (fmt_nl st'.Scratch.fd_ps) (fmt_nl st'.Scratch.fd_min_ps)
      | Err _ -> id ^ " err" | Panic _ -> id ^ " panic")
+  | ["QERR"; stale; coefs; shift; prec; signal] ->
+    let q = { Predict.q_coefs = zl coefs; q_shift = z_of_int (int_of_string shift); q_precision = n_of_int (int_of_string prec) } in
+    (match Scratch.qlpc_error_buffer (zl stale) q (zl signal) with
+     | Ok e -> Printf.sprintf "%s ok %s" id (fmt_z_list e)
+     | Err _ -> id ^ " err" | Panic _ -> id ^ " panic")
   | ["PLANES"; stale; signal] ->
     let st = Stdlib.List.map (fun x -> Scratch.sv_reset_from_slice (zl x)) (split_on '/' stale) in
     let planes = Scratch.reset_planes st (parse_samples signal) in
